@@ -52,7 +52,12 @@ def run(tier, v):
 
     # --- configuration product, fault-free
     locks = {"absent": (None, ()), "valid": (8, ()), "ahead": (100, ()), "corrupt": ("next_reference_id: banana\n", ()),
-             "empty": ("", ()), "unreadable(dir)": (None, ("lockdir",))}
+             "empty": ("", ()), "unreadable(dir)": (None, ("lockdir",)),
+             "git-conflict": ("# AUTO-GENERATED FILE - DON'T EDIT\n<<<<<<< HEAD\nnext_reference_id: 16\n=======\nnext_reference_id: 18\n>>>>>>> feature\n", ()),
+             "duplicate-key": ("next_reference_id: 5\nnext_reference_id: 9\n", ()),
+             "extra-keys+crlf": ("next_reference_id: 12\r\nother: 1\r\n", ()),
+             "negative": ("next_reference_id: -4\n", ()), "too-large": ("next_reference_id: 4294967296\n", ()),
+             "bom": ("\ufeffnext_reference_id: 7\n", ())}
     caches = {"omitted": None, "true": True, "false": False}
     structs = {"on": True, "off": False}
     trees = {"missing": (MISSING, ()), "none-missing": (NONE_MISSING, ()), "unreadable-among-good": (UNREADABLE, ()),
